@@ -563,11 +563,13 @@ func (x *runner) parallel(forms []*formSpec, pols []*policy) {
 		}
 		c.Eval(1)
 		x.checkSeq(forms[i], exp, alone.evs, "seq:"+forms[i].Name, wo, w)
-		limit := firstSkipOnLeave(alone.evs)
-		if l2 := firstSkipOnLeave(recs[i].evs); limit < 0 || (l2 >= 0 && l2 < limit) {
-			limit = l2
-		}
-		if m := tr.sameObserved(alone.evs, recs[i].evs, limit); m != nil {
+		// "Several visitors run in parallel each observe the event sequence
+		// they would observe alone" holds for EVERY policy, also one that
+		// answers skip on leave: whatever that answer does alone (it has no
+		// effect), it must do in parallel. (Correction by the lead: the first
+		// version stopped this comparison at the first skip-on-leave, which hid
+		// a seeded change that silences a parallel visitor after such an answer.)
+		if m := tr.sameObserved(alone.evs, recs[i].evs, -1); m != nil {
 			x.report(m, w)
 		}
 		x.checkSeq(forms[i], exp, recs[i].evs, "parallel", wo, w)
